@@ -650,7 +650,7 @@ def check_body(R, b, f, entries, RA, depth=0):
 
 def _check_pp(R, RA, g, gs, b, f, pp, pdesc, unit, role, depth, pnames):
     if True:
-        overstrict, nonstrict_seen = [], []
+        overstrict, nonstrict_seen, wrongdir = [], [], []
         found, wrong = None, []
         founds = []          # every acceptable guard: different arms of a `match` may each carry their own
         for (bi, op, lo, ro, ok) in gs:
@@ -661,6 +661,10 @@ def _check_pp(R, RA, g, gs, b, f, pp, pdesc, unit, role, depth, pnames):
             mine = lo if pl else ro
             opn = op if pl else {"Lt": "Gt", "Le": "Ge", "Gt": "Lt", "Ge": "Le"}[op]
             if opn not in ("Lt", "Le"):
+                # the comparison survives only for values ABOVE the dimension: the function then proceeds exactly for the
+                # out-of-range indices and rejects every valid one
+                if opn in ("Gt", "Ge") and strip(mine)[0] != "bin" and strip(other)[0] != "bin" and unit in g.dims_in(other) and depth == 0:
+                    wrongdir.append(show(("bin", op, lo, ro), pnames))
                 continue
             dims = g.dims_in(other)
             direct_param_bound = g.any_param(other)
@@ -690,6 +694,9 @@ def _check_pp(R, RA, g, gs, b, f, pp, pdesc, unit, role, depth, pnames):
                 overstrict.append(show(("bin", op, lo, ro), pnames))
             elif role == "endpoint" and opn == "Le" and strip(mine)[0] != "bin" and so[0] != "bin":
                 nonstrict_seen.append(1)
+        if wrongdir and depth == 0:
+            R.inst(b.ident, "%s (%s): no guard keeps only the values above the dimension" % (pdesc, unit), False)
+            R.fail(b.ident, "%s:reversed-guard" % pdesc, "%s: the guard `%s` lets %s through only when it is at or beyond its dimension: every valid call is rejected (or every rejected one accepted)" % (b.ident, wrongdir[0], pdesc), b.where())
         if overstrict and depth == 0:
             R.inst(b.ident, "%s (%s endpoint): the bound itself is accepted (no strict comparison of the bare value with its bound)" % (pdesc, unit), False)
             R.fail(b.ident, "%s:over-strict" % pdesc, "%s: %s is an endpoint - it may equal its bound (an insertion after the last line, an empty window or rectangle, a shift by the whole extent) - but it is compared strictly (`%s`): a valid call is rejected with a panic" % (b.ident, pdesc, overstrict[0]), b.where())
@@ -966,6 +973,23 @@ def r_guard(f):
                 RA.fail(b.ident, "idx:%s" % bad[1].replace("WithOverflow", ""), "%s multiplies the caller's index with a plain `%s`: with overflow checks off a huge index wraps to an in-range position and a wrong cell is returned instead of a panic" % (b.ident, bad[1].replace("WithOverflow", "")), b.where(bad[0]))
             if not checked_index:
                 RA.fail(b.ident, "idx:unchecked-access", "%s no longer reaches the cell through a checked slice index" % b.ident, b.where())
+    # the window validator's stride assertion: the row pitch handed in by a constructor is at least the parent's width; a guard of
+    # the opposite direction rejects every window of a narrow view (and lets an undersized pitch through)
+    for b in f.fn_bodies:
+        pn0 = b.param_names()
+        sp = [loc for loc, nm in pn0.items() if nm == "stride" and b.locals[loc] == "usize"]
+        if not sp or b.kind == "Closure" or "view" not in b.file:
+            continue
+        g = G(b, f)
+        for (gbi, op, lo, ro, okb) in g.guards():
+            sl_, sr_ = strip(lo), strip(ro)
+            for mine, other, opn in ((sl_, sr_, op), (sr_, sl_, {"Lt": "Gt", "Le": "Ge", "Gt": "Lt", "Ge": "Le"}.get(op, op))):
+                if mine == ("param", sp[0]) and other[0] == "call" and other[2] == "num_cols":
+                    n += 1
+                    okd = opn in ("Ge", "Gt", "Eq")
+                    R.inst(b.ident, "the stride handed to the window validator is kept when it is >= the parent's width (%s)" % opn, okd)
+                    if not okd:
+                        R.fail(b.ident, "stride:reversed-guard", "%s keeps a stride only when it is %s the parent's num_cols(): a view of a narrow view (stride > width) is rejected and an undersized stride accepted" % (b.ident, "below" if opn in ("Lt",) else "at most"), b.where())
     # insert_row / insert_col: on a non-empty array the supplied line must have exactly the existing width / height: an equality
     # guard between the iterator's claimed length (ExactSizeIterator::len on the caller's iterator) and the dimension of the other
     # axis, whose failing edge panics, precedes the window (the exhaustion debug_assert at the end only exists in debug builds)
